@@ -70,6 +70,8 @@ import (
 
 func enc(v any) string {
 	switch x := v.(type) {
+	case nil:
+		return "v:"
 	case int:
 		return fmt.Sprintf("i:%%d", x)
 	case bool:
@@ -188,6 +190,10 @@ func runNative(dir string, progs []*program) (*nativeBatch, error) {
 				var as []string
 				for _, a := range c.Args {
 					as = append(as, goLit(a))
+				}
+				if p.fn(c.Fn).ret0() == tVoid {
+					fmt.Fprintf(&body, "\trun(w, %d, %d, func() any { %s.%s(%s); return nil })\n", p.idx, ci, p.pkg, c.Fn, strings.Join(as, ", "))
+					continue
 				}
 				fmt.Fprintf(&body, "\trun(w, %d, %d, func() any { return %s.%s(%s) })\n", p.idx, ci, p.pkg, c.Fn, strings.Join(as, ", "))
 			}
